@@ -209,10 +209,30 @@ def run_tree(d, host):
     return r
 
 
-def run_check(d, target_dir):
-    r = subprocess.run(["cargo", "check", "--offline", "-q", "-j", "4"], cwd=d, env=cargo_env(target_dir),
+def run_check(d, target_dir, jobs=4):
+    r = subprocess.run(["cargo", "check", "--offline", "-q", "-j", str(jobs)], cwd=d, env=cargo_env(target_dir),
                        capture_output=True, text=True, timeout=7200)
     return r
+
+
+def tree_stamp(meta):
+    """A stamp of the sources under test (manifests + *.rs of the workspace packages): a verdict is only taken from a
+    build during which the tree did not change (other jobs may be rewriting a shared checkout)."""
+    h = []
+    roots = sorted({p["dir"] for p in meta["packages"]})
+    top = os.path.join(meta["repo"], "Cargo.toml")
+    files = [top] if os.path.exists(top) else []
+    for r in roots:
+        for dp, dns, fns in os.walk(r):
+            dns[:] = sorted(x for x in dns if x not in ("target", ".git"))
+            files += [os.path.join(dp, fn) for fn in sorted(fns) if fn.endswith(".rs") or fn == "Cargo.toml"]
+    for f in files:
+        try:
+            st = os.stat(f)
+            h.append((f, st.st_mtime_ns, st.st_size))
+        except OSError:
+            h.append((f, 0, -1))
+    return hash(tuple(h))
 
 
 def parallel(items, fn, n):
@@ -327,16 +347,24 @@ def _run(chk, repo, host, meta, ws_names, replay):
     tree_by = {c["cls"]: t for c, t in zip(to_tree, trees)}
 
     # 4. the build verdict: heavy representatives first, up to 4 at a time, one target dir per worker
-    order = sorted(to_check, key=lambda c: (-heavy(c) if "units" in c else 0, c["cls"]))
+    order = sorted(to_check, key=lambda c: (-heavy(c) if "units" in c and c["coherent"] and c["supported"] else 0,
+                                            -sum(len(u["fs"]) for u in c.get("units", [])), c["cls"]))
 
-    def check_one(k, c):
+    def check_one(k, c, jobs=4):
         t = tree_by.get(c["cls"], {})
         if "offline" in t:
             return {"status": "offline", "err": t["offline"]}
         d = chk.path(str(c["cls"]))
         write_crate(d, c["sel"], repo, meta)
         t1 = time.time()
-        r = run_check(d, chk.path("target-%d" % k))
+        for attempt in range(3):
+            before = tree_stamp(meta)
+            r = run_check(d, chk.path("target-%d" % k), jobs)
+            if tree_stamp(meta) == before:
+                break
+            core.log("[%s]   the tree under test changed while #%d was being built: building it again" % (chk.pid, c["cls"]))
+        else:
+            raise core.ToolError("the tree under test (%s) keeps changing during the run; no verdict taken" % repo)
         core.log("[%s]   cargo check #%d %s -> %s (%.0fs)" % (chk.pid, c["cls"], label(c["sel"])[:90], "ok" if r.returncode == 0 else "FAIL", time.time() - t1))
         if r.returncode == 0:
             return {"status": "ok", "err": ""}
@@ -348,8 +376,16 @@ def _run(chk, repo, host, meta, ws_names, replay):
             f.write(r.stderr)
         return {"status": "fail", "err": first_error(r.stderr)}
 
+    verdict_by = {}
+    if len(order) > PARALLEL_CHECK:
+        # warm-up: the heaviest representative is built alone, then its compile cache (third-party crates) seeds the
+        # other workers' target dirs, so the common dependencies are compiled once instead of once per worker
+        verdict_by[order[0]["cls"]] = check_one(0, order[0], jobs=8)
+        for k in range(1, PARALLEL_CHECK):
+            subprocess.run(["cp", "-a", chk.path("target-0"), chk.path("target-%d" % k)], check=False)
+        order = order[1:]
     verdicts = parallel(order, check_one, PARALLEL_CHECK)
-    verdict_by = {c["cls"]: v for c, v in zip(order, verdicts)}
+    verdict_by.update({c["cls"]: v for c, v in zip(order, verdicts)})
 
     # 5. TLC decides every record
     obs = chk.path("obs.ndjson")
@@ -417,7 +453,8 @@ def _run(chk, repo, host, meta, ws_names, replay):
                        "that break or touch a cfg coupling (capped) + seeded others; non-trivial = built with >=2 crates, a feature, or default-features=false"
                        ) % (chk.tier, "" if chk.quick else ", every feature subset of size <= 3")
     for r in [x for x in ran if x["cargo"]["status"] == "fail"][:2] + [x for x in ran if x["cargo"]["status"] == "ok"][:3]:
-        chk.sample({"selection": r["label"], "unit_features": {"%s@%s" % (u["p"], u["d"]): u["fs"] for u in r.get("units", r.get("tree", []))},
+        chk.sample({"selection": r["label"], "unit_features": {"%s@%s" % (u["p"], u["d"]): ",".join(f for f in u["fs"] if not f.startswith("dep:"))
+                                      for u in r.get("units", r.get("tree", []))},
                     "predicted_coherent": r.get("predicted_coherent"), "cargo_ok": r["cargo"]["status"] == "ok", "first_error": r["cargo"]["err"]})
     if offline:
         chk.notes.append("unbuildable offline (not a violation): " + "; ".join(offline[:10]))
